@@ -100,7 +100,18 @@ StmtPositions == <<
   <<"local g = nil, function() ", " end">>, <<"a = nil, function() ", " end">>
 >>
 
+\* ---- expression WRAPPERS: an expression around an expression (second nesting level): <<before, after>>
+Wrappers == <<
+  <<"(", ")">>, <<"-", "">>, <<"not ", "">>, <<"{", "}">>, <<"{k = ", "}">>, <<"{[", "] = 1}">>, <<"ext1(", ")">>, <<"t[", "]">>, <<"t[", "].k">>,
+  <<"function() return ", " end">>, <<"(function() return ", " end)()">>, <<"function() ext1(", ") end">>,
+  <<"if c then ", " else nil">>, <<"if ", " then 1 else 2">>, <<"`{", "}`">>, <<"`a{b}{", "}`">>, <<"", " :: any">>, <<"", " .. 'x'">>, <<"1 + ", "">>,
+  <<"", " and 1 or 2">>, <<"", " // 2">>, <<"t:m(", ")">>, <<"ext1 { ", " }">>, <<"ext1(1, ", ", 2)">>, <<"{1, ", "; 2}">> >>
+
 Prelude == "local a, b, c, t = ext1(), ext1(), ext1(), extt()\n"
+\* three levels: statement position [ expression position [ wrapper [ construct ] ] ]
+DeepCase(sp, p, w, e) == Prelude \o sp[1] \o p[1] \o w[1] \o e \o w[2] \o p[2] \o sp[2] \o "\n"
+\* positions that are complete statements usable inside every statement position (no `return`, which must end a block)
+IsReturnPos(p) == Len(p[1]) >= 6 /\ SubSeq(p[1], 1, 6) = "return"
 ExprCase(p, e) == Prelude \o p[1] \o e \o p[2] \o "\n"
 StmtCase(p, s) == Prelude \o p[1] \o s \o p[2] \o "\n"
 ExprInStmtCase(p, e) == Prelude \o p[1] \o "ext1(" \o e \o ")" \o p[2] \o "\n"
